@@ -342,7 +342,9 @@ func e1RunWordInner(sc e1Scen, word []sym, scratch string, props map[string]bool
 			r.checkStep()
 		}
 		if !ok {
-			r.add("ALL", "write-error", "write %d of the preamble failed: %s", r.writeErrAt, r.writeErr)
+			if !strings.Contains(r.writeErr, "maximum segment size") { // (small SegmentMaxSize: the run ends at the refused Write)
+				r.add("ALL", "write-error", "write %d of the preamble failed: %s", r.writeErrAt, r.writeErr)
+			}
 			return r, -1, nil
 		}
 	}
